@@ -16,7 +16,17 @@ REPO = os.environ.get("RZIL_REPO", "/repo")
 PKG = "rzilcompiler"
 
 
+def _is_cache_decorator(d):
+    """functools.cache / functools.lru_cache(...) / cache / lru_cache: memoisation (process-wide hidden state)"""
+    if isinstance(d, ast.Call):
+        d = d.func
+    name = d.attr if isinstance(d, ast.Attribute) else (d.id if isinstance(d, ast.Name) else None)
+    return name in ("cache", "lru_cache", "cached_property")
+
+
 class FuncInfo:
+    cached = False
+
     def __init__(self, node, module, qualname, cls=None, kind="function"):
         self.node = node
         self.module = module
@@ -160,7 +170,13 @@ class Loader:
             if isinstance(node, (ast.Import, ast.ImportFrom)):
                 self._do_import(node, g)
             elif isinstance(node, ast.FunctionDef):
-                g[node.name] = FuncInfo(node, m, f"{m.name}.{node.name}")
+                fi = FuncInfo(node, m, f"{m.name}.{node.name}")
+                for d in node.decorator_list:
+                    if _is_cache_decorator(d):
+                        fi.cached = True
+                    else:
+                        fi.kind = "unsupported-decorator"
+                g[node.name] = fi
             elif isinstance(node, ast.ClassDef):
                 g[node.name] = self._make_class(node, m)
             elif isinstance(node, ast.Assign):
@@ -223,8 +239,11 @@ class Loader:
             if isinstance(st, ast.FunctionDef):
                 kind = "function"
                 prop = None
+                cached = False
                 for d in st.decorator_list:
-                    if isinstance(d, ast.Name) and d.id == "staticmethod":
+                    if _is_cache_decorator(d):
+                        cached = True
+                    elif isinstance(d, ast.Name) and d.id == "staticmethod":
                         kind = "staticmethod"
                     elif isinstance(d, ast.Name) and d.id == "classmethod":
                         kind = "classmethod"
@@ -235,6 +254,7 @@ class Loader:
                     else:
                         kind = "unsupported-decorator"
                 f = FuncInfo(st, m, f"{m.name}.{node.name}.{st.name}", cls=c, kind=kind)
+                f.cached = cached
                 if kind == "getter":
                     p = c.methods.get(st.name)
                     if not isinstance(p, PropInfo):
